@@ -275,6 +275,8 @@ def sep_member(c, out, x):
     if r is False:
         return False
     for t, l, cols in out['slacks']:
+        if any(k < 0 or k >= len(z) for k in cols):
+            return 'mapping'
         rr = cm.MEMBER[t]([z[k] for k in cols])
         if rr is False:
             return False
@@ -296,6 +298,8 @@ def oracle_separate(c, out, pts):
         got = sep_member(c, out, x)
         if got == 'shape':
             return 'slack columns are not one -1 per separated row', x
+        if got == 'mapping':
+            return 'the column mapping of a separated cone refers to a column that does not exist in the augmented system', x
         if want is None or got is None:
             continue
         if want != got:
